@@ -138,6 +138,17 @@ Theorem C02_funds_complete :
 Proof. exact funds_complete. Qed.
 Print Assumptions C02_funds_complete.
 
+(* at the call sites of SEVM.call and SEVM.create (regenerated: funds_payer_same): the account whose balance decides
+   the fork is the one debited on the side that goes ahead, so every valuation is covered whatever any OTHER
+   account holds (a pranked CREATE that forks on the pranked sender and debits the creator would not be) *)
+Theorem C02_funds_site_complete :
+  forall (V : Type) (chk : cnd V -> Z) (path : V -> Prop) (balc bald val : V -> Z) (v : V),
+    (forall c, chk c = 0 -> forall v', path v' -> c v' = false) ->
+    path v ->
+    exists fails c, In (fails, c) (funds_site_alternatives V chk balc bald val) /\ c v = true.
+Proof. exact funds_site_complete. Qed.
+Print Assumptions C02_funds_site_complete.
+
 (* symbolic JUMP: every valuation that jumps to a valid destination is covered *)
 Theorem C02_symjump_complete_partial :
   forall (V : Type) (chk : cnd V -> Z) (path : V -> Prop) (valid : list Z) (dst : V -> Z) l (v : V),
